@@ -401,6 +401,16 @@ class Ctx:
             if hh is None:
                 return None
             hyps = hh
+        elif relevant and isinstance(level, str) and level.startswith("small"):
+            # every hypothesis conjunct larger than N characters is dropped (the big ones are whole-structure
+            # invariants that most goals do not need and that drown the solvers); dropping is sound
+            n_ = int(level[5:])
+            hh = []
+            for h in hyps:
+                for cj in Ctx.conjuncts(h):
+                    if len(cj) <= n_:
+                        hh.append(cj)
+            hyps = hh
         elif relevant and level == "frame":
             hh = self.frame_hyps(hyps, ob.goal)
             if hh is None:
